@@ -113,30 +113,58 @@ class Ctx:
         return self.fail(instance, body, fail_msg, line, details, props, fnkey)
 
 
+# views: 'orig' = as written; 's' = closures of iterator adaptors spliced into explicit loops;
+# 'i' = private helpers inlined; 'is' = both
+VIEWS = ['orig', 's', 'i', 'is']
+
+
+def _run_one(ctx, rd, view):
+    """Run one rule in one view; returns its results (floor enforced)."""
+    ctx.facts.view = view
+    before = len(ctx.results)
+    try:
+        rd.fn(ctx)
+    except MissingAnchor as e:
+        ctx.shape('anchor', None, str(e))
+    except Exception as e:  # a crash of a recogniser is a fail-closed shape error, reported as such
+        tb = traceback.format_exc().splitlines()[-6:]
+        ctx.shape('internal', None, 'rule raised %s: %s' % (type(e).__name__, e), details={'trace': tb})
+    mine = ctx.results[before:]
+    evaluated = [r for r in mine if r.status in ('ok', 'violation')]
+    if len(evaluated) < rd.floor and not any(r.status == 'shape' for r in mine):
+        ctx.shape('floor', None, 'rule %s evaluated %d instances, floor is %d (an anchor or idiom vanished)'
+                  % (rd.id, len(evaluated), rd.floor))
+        mine = ctx.results[before:]
+    del ctx.results[before:]
+    ctx.facts.view = 'orig'
+    for r in mine:
+        if r.props is None and rd.inst_filter:
+            r.props = [p for p in rd.props if p not in rd.inst_filter or rd.inst_filter[p](r.instance)]
+        if view != 'orig':
+            r.details = dict(r.details or {}, view=view)
+    return mine
+
+
 def run_rules(ctx, prop=None, only=None):
-    """Run every rule serving `prop` (all when None). Floors are enforced per rule."""
+    """Run every rule serving `prop` (all when None). Floors are enforced per rule.
+    A rule is evaluated on the function as written; if some instance fails it is re-evaluated on equivalent *views*
+    of the same functions (private helpers inlined, ..).  A clause that holds on an equivalent view holds; the verdict
+    is taken from the view with the fewest failures (the original view on ties)."""
     for rd in RULES:
         if prop is not None and prop not in rd.props:
             continue
         if only is not None and rd.id not in only:
             continue
         ctx.current = rd
-        before = len(ctx.results)
-        try:
-            rd.fn(ctx)
-        except MissingAnchor as e:
-            ctx.shape('anchor', None, str(e))
-        except Exception as e:  # a crash of a recogniser is a fail-closed shape error, reported as such
-            tb = traceback.format_exc().splitlines()[-6:]
-            ctx.shape('internal', None, 'rule raised %s: %s' % (type(e).__name__, e), details={'trace': tb})
-        mine = [r for r in ctx.results[before:]]
-        for r in mine:
-            if r.props is None and rd.inst_filter:
-                r.props = [p for p in rd.props if p not in rd.inst_filter or rd.inst_filter[p](r.instance)]
-        evaluated = [r for r in mine if r.status in ('ok', 'violation')]
-        if len(evaluated) < rd.floor and not any(r.status == 'shape' for r in mine):
-            ctx.shape('floor', None, 'rule %s evaluated %d instances, floor is %d (an anchor or idiom vanished)'
-                      % (rd.id, len(evaluated), rd.floor))
+        best = None
+        for view in VIEWS:
+            res = _run_one(ctx, rd, view)
+            nbad = sum(1 for r in res if r.status in ('violation', 'shape'))
+            if best is None or nbad < best[0]:
+                best = (nbad, res)
+            if nbad == 0:
+                break
+        ctx.results.extend(best[1])
     ctx.current = None
     return ctx.results
 
